@@ -131,6 +131,11 @@ type Tap struct {
 	NoRecord bool
 	MaxKeep  int // stop recording (not counting) beyond this many events; 0 = unlimited
 	Clock    *uint64
+	// Hash: fold every event into Sum (FNV-1a over kind, numbers and string
+	// bytes) - event streams of 10^5..10^6 events are compared by digest
+	// instead of being kept.
+	Hash bool
+	Sum  uint64
 }
 
 func NewTap(next structform.Visitor) *Tap {
@@ -161,6 +166,24 @@ func (t *Tap) on(ev Ev) error {
 		if err := t.Hook(idx, &ev); err != nil {
 			return err
 		}
+	}
+	if t.Hash {
+		h := t.Sum ^ 14695981039346656037
+		mix := func(v uint64) {
+			for i := 0; i < 8; i++ {
+				h = (h ^ (v & 0xff)) * 1099511628211
+				v >>= 8
+			}
+		}
+		mix(uint64(ev.K))
+		mix(uint64(ev.I))
+		mix(ev.U)
+		mix(uint64(ev.T))
+		mix(uint64(len(ev.S)))
+		for i := 0; i < len(ev.S); i++ {
+			h = (h ^ uint64(ev.S[i])) * 1099511628211
+		}
+		t.Sum = h
 	}
 	if !t.NoRecord && (t.MaxKeep == 0 || len(t.Events) < t.MaxKeep) {
 		t.Events = append(t.Events, ev)
